@@ -41,6 +41,7 @@ Bin(f, l, r) == [e |-> "bin", f |-> f, l |-> l, r |-> r]
 U(e, x)      == [e |-> e, x |-> x]
 Self         == [e |-> "self"]
 Idx          == [e |-> "idx"]
+IdxS         == [e |-> "idxs"]
 IsIn(x, vs)  == [e |-> "isin", x |-> x, vals |-> vs]
 FillNa(x, v) == [e |-> "fillna", x |-> x, v |-> v]
 Clip(x, l, h) == [e |-> "clip", x |-> x, lo |-> l, hi |-> h]
@@ -68,8 +69,10 @@ Preds == <<
   Bin("lt", K(1), R),                                            \* reflected comparison
   Bin("lt", R, K(0)),                                            \* selects nothing
   Bin("ge", R, K(0)),                                            \* selects everything
-  Bin("gt", Idx, K(0)),                                          \* predicate on the index
-  Bin("and", Bin("le", Idx, K(1)), Bin("gt", A, K(0)))
+  Bin("gt", Idx, K(0)),                                          \* predicate on the index (array)
+  Bin("and", Bin("le", Idx, K(1)), Bin("gt", A, K(0))),
+  Bin("gt", IdxS, K(0)),                                         \* predicate on the index (as a Series)
+  Bin("and", Bin("le", IdxS, K(1)), Bin("gt", A, K(0)))
 >>
 
 SeriesExprs == <<
@@ -102,7 +105,8 @@ OpMenu ==
      [j \in DOMAIN SeriesExprs |-> [op |-> "series", x |-> SeriesExprs[j]]]
   \o [j \in DOMAIN Preds |-> [op |-> "filter", p |-> Preds[j]]]
   \o << [op |-> "sfilter", x |-> A, p |-> Preds[1]], [op |-> "sfilter", x |-> R, p |-> Preds[2]],
-        [op |-> "sfilter", x |-> Bin("add", A, R), p |-> Preds[5]], [op |-> "sfilter", x |-> R, p |-> Preds[14]] >>
+        [op |-> "sfilter", x |-> Bin("add", A, R), p |-> Preds[5]], [op |-> "sfilter", x |-> R, p |-> Preds[14]], [op |-> "sfilter", x |-> R, p |-> Preds[16]],
+        [op |-> "series", x |-> Bin("ne", IdxS, A)], [op |-> "series", x |-> Bin("add", A, IdxS)] >>
   \o << [op |-> "project", cols |-> <<"a">>], [op |-> "project", cols |-> <<"b", "rid">>],
         [op |-> "project", cols |-> <<"rid", "a", "b">>], [op |-> "project", cols |-> <<"b", "a", "rid">>] >>
   \o << [op |-> "assign", name |-> "c", x |-> Bin("add", A, B)], [op |-> "assign", name |-> "a", x |-> Bin("mul", A, K(2))],
@@ -113,6 +117,17 @@ OpMenu ==
   \o << [op |-> "fmap", cols |-> <<"rid", "a">>, x |-> Bin("add", Self, K(1))],
         [op |-> "fmap", cols |-> <<"b", "rid">>, x |-> AsType(Self, "f")],
         [op |-> "fmap", cols |-> <<"rid">>, x |-> Where(Self, Bin("gt", Self, K(1)), NA)] >>
+  \o << [op |-> "fmapcol", cols |-> <<"a", "b">>, c |-> "b", x |-> FillNa(Self, 0)],
+        [op |-> "fmapcol", cols |-> <<"a", "b">>, c |-> "a", x |-> Bin("add", Self, K(1))],
+        [op |-> "fmapcol", cols |-> <<"a", "b">>, c |-> "b", x |-> Where(Self, Bin("gt", Self, K(0)), 5)],
+        [op |-> "fmapcol", cols |-> <<"b">>, c |-> "b", x |-> Where(Self, Bin("gt", Self, K(0)), NA)],
+        [op |-> "fmapcol", cols |-> <<"a", "b", "rid">>, c |-> "rid", x |-> Mask(Self, Bin("eq", Self, K(1)), NA)] >>
+  \o << [op |-> "seq", first |-> [op |-> "filter", p |-> Bin("ge", R, K(1))], second |-> [op |-> "sfilter", x |-> A, p |-> Bin("gt", IdxS, K(0))]],
+        [op |-> "seq", first |-> [op |-> "filter", p |-> Bin("ge", R, K(1))], second |-> [op |-> "assign", name |-> "c", x |-> Where(R, Bin("ge", IdxS, K(1)), NA)]],
+        [op |-> "seq", first |-> [op |-> "filter", p |-> Bin("gt", A, K(0))], second |-> [op |-> "filter", p |-> Bin("lt", B, K(2))]],
+        [op |-> "seq", first |-> [op |-> "filter", p |-> Bin("ge", R, K(1))], second |-> [op |-> "series", x |-> Bin("add", A, B)]],
+        [op |-> "seq", first |-> [op |-> "assign", name |-> "c", x |-> Bin("add", A, R)], second |-> [op |-> "filter", p |-> Bin("gt", Col("c"), K(1))]],
+        [op |-> "seq", first |-> [op |-> "head", n |-> 3, np |-> 0 - 1], second |-> [op |-> "assign", name |-> "a", x |-> FillNa(A, 0)]] >>
   \o << [op |-> "rename", ren |-> << <<"a", "x">> >>], [op |-> "rename", ren |-> << <<"a", "x">>, <<"b", "y">> >>],
         [op |-> "rename", ren |-> << <<"a", "b">>, <<"b", "a">> >>], [op |-> "rename", ren |-> << <<"zz", "x">> >>] >>
   \o [j \in 1..5 |-> [op |-> "head", n |-> <<0, 1, 2, 4, 7>>[j], np |-> 0 - 1]]
@@ -199,7 +214,7 @@ ExpOK == (IsCase /\ case.fam # "layouts") => (exp.err \/ TableOK(exp))
 
 \* elementwise operations keep the index and the row order
 ElementwiseKeepsIndex ==
-  (TableCase /\ case.op.op \in {"series", "assign", "fmap", "rename", "project"} /\ ~exp.err)
+  (TableCase /\ case.op.op \in {"series", "assign", "fmap", "fmapcol", "rename", "project"} /\ ~exp.err)
      => IdxSeq(exp.rows) = TIdx(Tbl)
 
 \* selections return whole source rows, in source order (rid = source position - 1)
